@@ -64,6 +64,34 @@ def registry(rep, names):
             if b.distance != nm or b.distance_fn is not d.DISTANCES[nm]:
                 rep.violation(cname, "distance_option_does_not_resolve_to_the_registered_function_after_load", nm, {"identifier": nm, "loaded_distance": b.distance})
     rep.count("registry_probes", n)
+    # the two library routines that evaluate "the metric named by an identifier" on whole data sets - pre_compute_distance(distance=id)
+    # and a model's get_distances() - give, for every ORDERED pair, the registered function's value (the non-symmetric identifiers
+    # tell d(x_i, x_j) from d(x_j, x_i))
+    import numpy as np
+    import opfython.math.general as g
+    Zs = np.array([[0.2, 0.5, 0.3], [0.6, 0.1, 0.3], [0.25, 0.25, 0.5], [0.1, 0.8, 0.1], [0.4, 0.35, 0.25]])      # positive, rows sum to 1
+    Ys = np.array([0, 1, 0, 1, 1])
+    m_pairs = 0
+    for nm in sorted(names & reg):
+        fn = d.DISTANCES[nm]
+        want = [[float(fn(Zs[i].copy(), Zs[j].copy())) for j in range(len(Zs))] for i in range(len(Zs))]
+        try:
+            pth = os.path.join(tmp, "pc.txt")
+            g.pre_compute_distance(Zs.copy(), pth, nm)
+            got_file = np.loadtxt(pth)
+            mdl = SupervisedOPF(distance=nm)
+            mdl.fit(Zs.copy(), Ys.copy())
+            got_model = mdl.get_distances()
+        except Exception as ex:
+            rep.violation("pre_compute_distance/get_distances", "matrix_routine_raised", nm, {"identifier": nm, "exception": "%s: %s" % (type(ex).__name__, str(ex)[:120])})
+            continue
+        for label, got in (("pre_compute_distance", got_file), ("get_distances", got_model)):
+            badp = [(i, j, float(got[i][j]), want[i][j]) for i in range(len(Zs)) for j in range(len(Zs)) if i != j and not (got[i][j] == want[i][j] or (got[i][j] != got[i][j] and want[i][j] != want[i][j]))]
+            m_pairs += len(Zs) * (len(Zs) - 1)
+            if badp:
+                i, j, a, b = badp[0]
+                rep.violation(label, "matrix_entry_is_not_the_registered_metric_on_that_ordered_pair", nm, {"identifier": nm, "i": i, "j": j, "entry": a, "metric_value": b, "n_wrong": len(badp)})
+    rep.count("matrix_routine_ordered_pairs", m_pairs)
 
 
 _BUFFERS = {}
